@@ -316,11 +316,11 @@ def rm_call(ctx):
     for inst, adt, op_adt, _ in TYPES:
         body = ctx.method(adt, 'CmRDT', 'apply')
         it = interp(facts, body)
-        rm_uids = set(b.uid for b, _, _ in rm_routines(facts, adt))
+        rm_uids = set(b.base_uid for b, _, _ in rm_routines(facts, adt))
         vn = variants(facts, op_adt)
         rc = Reach(facts, body, Evaluator(facts, bool_atom=discr_atom_of_param(2), assumption={'variant': vn.index('Rm')}))
         props = ['C08', EL[inst]]
-        if body.uid in rm_uids:
+        if body.base_uid in rm_uids:
             # the remove routine is written inline in apply (or seen through the helper-inlining view): the clock it
             # decides on / subtracts and the elements it ranges over must be the op's own fields
             r = roles(facts, adt)
@@ -492,7 +492,7 @@ def def_take(ctx):
     facts = ctx.facts
     for inst, adt, _, _ in TYPES:
         r = roles(facts, adt)
-        rm_uids = set(b.uid for b, _, _ in rm_routines(facts, adt))
+        rm_uids = set(b.base_uid for b, _, _ in rm_routines(facts, adt))
         cands = []
         for b in adt_bodies(facts, adt):
             if b.impl_trait and b.impl_trait.endswith('ResetRemove'):
@@ -560,7 +560,7 @@ def def_merge(ctx):
         r = roles(facts, adt)
         body = ctx.method(adt, 'CvRDT', 'merge')
         it = interp(facts, body)
-        rm_uids = set(b.uid for b, _, _ in rm_routines(facts, adt))
+        rm_uids = set(b.base_uid for b, _, _ in rm_routines(facts, adt))
         rc = Reach(facts, body, Evaluator(facts))
         good = []
         for bb, c in it.calls.items():
